@@ -14,11 +14,14 @@ import (
 func defaultHasher[T comparable]() func(T, uint64) uint64 {
 	var zero T
 
-	if reflect.TypeOf(&zero).Elem().Kind() == reflect.Interface {
+	if t := reflect.TypeOf(&zero).Elem(); t.Kind() == reflect.Interface {
+		// Hash the interface value as an interface (the way a built-in map does):
+		// the runtime hashes the dynamic type together with the dynamic value,
+		// handles nil, and takes pointer-shaped dynamic values as the pointers
+		// they are instead of reading the memory they point to.
+		typ := uintptr((*iface)(unsafe.Pointer(&t)).word)
 		return func(value T, seed uint64) uint64 {
-			iValue := any(value)
-			i := (*iface)(unsafe.Pointer(&iValue))
-			return runtime_typehash64(i.typ, i.word, seed)
+			return runtime_typehash64(typ, unsafe.Pointer(&value), seed)
 		}
 	} else {
 		var iZero any = zero
